@@ -1305,6 +1305,26 @@ func (p *Prog) isRepeatedInit(c *ssa.Call) bool {
 	} else if f := c.Call.StaticCallee(); f != nil && f.Signature.Recv() != nil && len(c.Call.Args) > 0 {
 		name, recv = f.Name(), c.Call.Args[0]
 	}
+	// a package helper that does nothing but Init its parameter (initFinalPlan(plan)): the plan handed to it
+	if h := c.Call.StaticCallee(); h != nil && name != "Init" && p.InPkg(h) {
+		var only *ssa.Call
+		calls := 0
+		allInstrs(h, func(in ssa.Instruction) {
+			if hc, ok := in.(*ssa.Call); ok {
+				calls++
+				only = hc
+			}
+		})
+		if calls == 1 && only.Call.IsInvoke() && only.Call.Method.Name() == "Init" {
+			if pa, ok := only.Call.Value.(*ssa.Parameter); ok {
+				for k, q := range h.Params {
+					if q == pa && k < len(c.Call.Args) {
+						name, recv = "Init", c.Call.Args[k]
+					}
+				}
+			}
+		}
+	}
 	if name != "Init" || recv == nil {
 		return false
 	}
